@@ -2,6 +2,7 @@ import Crng.Tie.CodeTable
 import Crng.Tie.CodeRoute
 import Crng.Tie.CodeMatcher
 import Crng.Tie.CodeAgg
+import Crng.Gen.CodeFilters
 /-! The regenerated functions composed: a table whose blacklist entries, aggregators, routes and destinations are the
 *translated* `Matcher.Match`, `Aggregator.AddMaybe`, `SendAllMatch.Dispatch` / `SendFirstMatch.Dispatch` plugged into the
 interfaces `Table.Dispatch` calls through. The statements below are C01 and C11 end to end, about code regenerated from
@@ -20,6 +21,18 @@ def sendFirstRoute (id : Nat) (key : Bytes) (m : Matcher) (ds : List DestI) : Ro
 def aggOf (a : Aggregator) : AggregatorI := { id := a.id, AddMaybe := a.AddMaybe, Shutdown := ([], ()) }
 /-- a blacklist entry -/
 def blackOf (id : Nat) (m : Matcher) : MatcherI := ⟨id, m.Match⟩
+
+/-- the filter of a real destination / carbon route is its matcher's (translated) `Match`: `Destination.Match` and
+`baseRoute.Match` only take the lock / load the published config around it -/
+theorem destination_match_eq (d : Destination) (s : Bytes) : d.Match s = d.Matcher.Match s := rfl
+theorem baseRoute_match_eq (r : baseRoute) (s : Bytes) : r.Match s = r.config.Matcher.Match s := rfl
+/-- … so, with sound derived prefixes, both decide by the documented six-condition conjunction on what they are given -/
+theorem destination_match_spec (d : Destination) (h : (Crng.Tie.CodeMatcher.absM d.Matcher).PrefixOK) (s : Bytes) :
+    d.Match s = (Crng.Tie.CodeMatcher.absM d.Matcher).spec s := by
+  rw [destination_match_eq]; exact Crng.Tie.CodeMatcher.matcher_match_spec _ h s
+theorem baseRoute_match_spec (r : baseRoute) (h : (Crng.Tie.CodeMatcher.absM r.config.Matcher).PrefixOK) (s : Bytes) :
+    r.Match s = (Crng.Tie.CodeMatcher.absM r.config.Matcher).spec s := by
+  rw [baseRoute_match_eq]; exact Crng.Tie.CodeMatcher.matcher_match_spec _ h s
 
 /-- hand-offs into destination queues -/
 def isDestSend : Ev → Bool
